@@ -24,9 +24,10 @@ const (
 
 // spyPacer forwards synchronously (like the NoOp pacer) and records every rate it is told.
 type spyPacer struct {
-	mu      sync.Mutex
-	writers map[uint32]interceptor.RTPWriter
-	rates   []int
+	mu       sync.Mutex
+	writers  map[uint32]interceptor.RTPWriter
+	rates    []int
+	closeErr error
 }
 
 func (p *spyPacer) Write(h *rtp.Header, payload []byte, a interceptor.Attributes) (int, error) {
@@ -52,7 +53,8 @@ func (p *spyPacer) SetTargetBitrate(r int) {
 	p.mu.Unlock()
 }
 
-func (p *spyPacer) Close() error { return nil }
+// Close can be made to fail: the estimator is closed all the same.
+func (p *spyPacer) Close() error { return p.closeErr }
 
 func (p *spyPacer) snapshot() []int {
 	p.mu.Lock()
@@ -75,6 +77,9 @@ func TestTargetBitrateBounded(t *testing.T) {
 		minR, initR, maxR := levels[a], levels[b], levels[c]
 		pacerKind := rapid.SampledFrom([]string{"spy", "spy", "noop", "leaky"}).Draw(t, "pacer")
 		spy := &spyPacer{writers: map[uint32]interceptor.RTPWriter{}}
+		if rapid.IntRange(0, 2).Draw(t, "pacerCloseFails") == 0 {
+			spy.closeErr = errors.New("injected pacer close error")
+		}
 		opts := []gcc.Option{gcc.SendSideBWEMinBitrate(minR), gcc.SendSideBWEInitialBitrate(initR), gcc.SendSideBWEMaxBitrate(maxR)}
 		switch pacerKind {
 		case "spy":
@@ -288,7 +293,19 @@ func TestTargetBitrateBounded(t *testing.T) {
 			t.Fatalf("%s: WriteRTCP after Close: %s", where, o)
 		}
 		if !errors.Is(werr, gcc.ErrSendSideBWEClosed) {
-			t.Fatalf("%s: WriteRTCP after Close returned %v, want ErrSendSideBWEClosed", where, werr)
+			t.Fatalf("%s: WriteRTCP after Close returned %v, want ErrSendSideBWEClosed (pacer Close error: %v)", where, werr, spy.closeErr)
+		}
+		// feedback with content, and a repeated Close, behave the same
+		fbAfter := &rtcp.CCFeedbackReport{SenderSSRC: 9, ReportTimestamp: 7, ReportBlocks: []rtcp.CCFeedbackReportBlock{{MediaSSRC: 1, BeginSequence: 1,
+			MetricBlocks: []rtcp.CCFeedbackMetricBlock{{Received: true, ArrivalTimeOffset: 1}}}}}
+		if o := kit.Guard(0, func() { werr = bwe.WriteRTCP([]rtcp.Packet{fbAfter}, nil) }); !o.OK() {
+			t.Fatalf("%s: WriteRTCP with a report after Close (pacer Close error: %v): %s", where, spy.closeErr, o)
+		}
+		if !errors.Is(werr, gcc.ErrSendSideBWEClosed) {
+			t.Fatalf("%s: WriteRTCP with a report after Close returned %v, want ErrSendSideBWEClosed (pacer Close error: %v)", where, werr, spy.closeErr)
+		}
+		if o := kit.Guard(0, func() { _ = bwe.Close() }); !o.OK() {
+			t.Fatalf("%s: second Close (pacer Close error: %v): %s", where, spy.closeErr, o)
 		}
 		_ = base
 		var cl []string
